@@ -54,6 +54,98 @@ def diag_kernel(run, f, tracked):
     return n
 
 
+def support_mask(run, cf, rule='R12.support'):
+    """condense(g): the support mask of a string is True on a qubit iff its (x, z) pair is not (0, 0).  The function is executed
+    on a one-qubit string for the four letters (loop form: N = 1, the stores into the mask are followed; vector form: g[::2] /
+    g[1::2] are the x / z bit); the mask is the array that is expanded by repeat(mask, 2) / repeat_interleave(mask, 2)."""
+    from .. import mini
+    from ..rules import nf
+    G = cf.posparams[0]
+    mname = None
+    for c in ast.walk(cf.node):
+        if isinstance(c, ast.Call) and norm(c.func).split('.')[-1] in ('repeat', 'repeat_interleave') and c.args and isinstance(c.args[0], ast.Name):
+            mname = c.args[0].id
+    if mname is None:
+        run.undecided(rule, cf, cf.name, 'no mask expanded with repeat(mask, 2) found')
+        return
+    bad = None
+    try:
+        for x, z in ((0, 0), (1, 0), (0, 1), (1, 1)):
+            heap = {}
+
+            def sub(n, env, rec, x=x, z=z):
+                if isinstance(n.value, ast.Name) and n.value.id == G:
+                    s_ = nf._slice_slot(n)
+                    if s_ is not None:
+                        return {'x': x, 'z': z}[s_]
+                    k = rec(n.slice)
+                    if k in (0, 1):
+                        return (x, z)[k]
+                    raise Undecidable('index %r of a one-qubit string' % (k,))
+                if isinstance(n.value, ast.Name) and n.value.id in heap:
+                    return heap[n.value.id]
+                raise Undecidable('subscript ' + norm(n))
+
+            def attr(n, env, rec):
+                if n.attr == 'shape' and norm(n.value) == G:
+                    return (2,)
+                raise Undecidable('attribute ' + norm(n))
+
+            def call(n, env, rec):
+                fn = norm(n.func).split('.')[-1]
+                if fn in ('zeros', 'zeros_like') :
+                    return False
+                if fn in ('ones', 'ones_like'):
+                    return True
+                if isinstance(n.func, ast.Attribute) and not (isinstance(n.func.value, ast.Name) and n.func.value.id in ('numpy', 'torch', 'np')):
+                    v = rec(n.func.value)
+                    a = [rec(y) for y in n.args]
+                    if fn in ('ge', 'gt', 'ne', 'eq', 'le', 'lt') and len(a) == 1:
+                        return {'ge': v >= a[0], 'gt': v > a[0], 'ne': v != a[0], 'eq': v == a[0], 'le': v <= a[0], 'lt': v < a[0]}[fn]
+                    if fn in ('bool', 'any') or (fn in ('astype', 'to', 'type') and 'bool' in norm(n)):
+                        return bool(v)
+                    if fn in ('long', 'int', 'float', 'clone', 'copy', 'flatten'):
+                        return v
+                    raise Undecidable('method ' + fn)
+                a = [rec(y) for y in n.args]
+                if fn in ('logical_or', 'bitwise_or', 'maximum') and len(a) == 2:
+                    return (a[0] or a[1]) if fn != 'maximum' else max(a)
+                if fn in ('logical_and', 'bitwise_and', 'minimum') and len(a) == 2:
+                    return (a[0] and a[1]) if fn != 'minimum' else min(a)
+                if fn in ('logical_xor', 'bitwise_xor') and len(a) == 2:
+                    return bool(a[0]) != bool(a[1])
+                if fn in ('logical_not',) and len(a) == 1:
+                    return not a[0]
+                if fn in ('abs',) and len(a) == 1:
+                    return abs(a[0])
+                raise Undecidable('call ' + norm(n.func))
+
+            def on_store(t, v, env, value):
+                if isinstance(t, ast.Subscript) and isinstance(t.value, ast.Name) and v is not Undecidable:
+                    heap[t.value.id] = v
+
+            body = [st for st in cf.node.body if not isinstance(st, ast.Return)]
+            res = []
+            # the value of the mask after the last statement
+            mini.execute(cf.node, {G: None}, sub=sub, call=call, attr=attr, on_store=on_store,
+                         body=body + [ast.Return(value=ast.Name(id=mname, ctx=ast.Load()))], result=res)
+            if not res:
+                raise Undecidable('mask value not produced')
+            val = heap.get(mname, res[0])
+            if bool(val) != bool(x or z):
+                bad = ((x, z), bool(val))
+                break
+    except (Undecidable, TypeError) as e:
+        run.undecided(rule, cf, mname, 'support mask not executable on a one-qubit string: %s' % e)
+        return
+    run.check(bad is None, rule, cf, 'support mask `%s`' % mname, 'a qubit belongs to the support iff its (x, z) bits are not both 0: on (x, z) = %s the mask is %s '
+              '(Y has both bits set)' % (bad if bad else ('', '')))
+
+
+class _FixedSlot(Exception):
+    pass
+
+
 def diag_guards(run, f, rule='R8.diag'):
     """Truth tables of the case analysis of pauli_diagonalize1/2 on the target qubit: nothing to do iff the operator is on-site
     with x = 0 (it is Z); a first generator is needed iff x = 0 (commutes with Z on the target); the pivot trick iff also z = 0."""
@@ -78,6 +170,8 @@ def diag_guards(run, f, rule='R8.diag'):
                             return x0
                         if ab == (2, 1):
                             return z0
+                        if ab is not None and ab[0] == 0 and f.posparams[-1] == i0 and len(f.posparams) > 1:
+                            raise _FixedSlot(norm(n))
                         raise Undecidable('slot')
                     out[(onsite, x0, z0)] = bool(ev(test, {}, call=call, sub=sub))
         return out
@@ -95,6 +189,9 @@ def diag_guards(run, f, rule='R8.diag'):
     for (st, ctx), (fn, what) in zip(mine, want):
         try:
             tb = table(st.test)
+        except _FixedSlot as e:
+            run.violation(rule, f, st.test, 'the case analysis on the target qubit %s reads the fixed slot %s: for a target other than qubit 0 it looks at the wrong qubit' % (i0, e))
+            continue
         except Undecidable as e:
             run.undecided(rule, f, st.test, str(e))
             continue
@@ -375,7 +472,7 @@ def check(run):
                   'the circuit that diagonalises the leading term causally is both appended to the total circuit and applied to the working Hamiltonian (found order %s)' % pos)
         lead = [s for s in body if isinstance(s, ast.Assign) and norm(s.targets[0]) == 'leading']
         run.check(len(lead) == 1 and norm(lead[0].value).replace(' ', '') == 'numpy.argmax(numpy.abs(%s.cs))' % HT, 'R10.sbrg', sb, 'leading', 'the leading term has the largest |coefficient|')
-        for s in body:
+        for s, _c in walk(loop[0]):
             if isinstance(s, ast.Assign) and norm(s.targets[0]) == 'mask_commute':
                 cmpn = s.value
                 ok = isinstance(cmpn, ast.Compare) and isinstance(cmpn.left, ast.Subscript) and affine_in(cmpn.left.slice.elts[1], i0) == (2, 0) \
